@@ -101,7 +101,24 @@ void checkHandler(const Spec& s)
 	for (size_t i = 0; i < s.oHeaders.size() && i < s.headers.size(); i++)
 		if (s.oHeaders[i].second != s.headers[i].second)
 			sim::fail("handler_mismatch", "header", "request %d: header %s sent '%s', handler saw '%s'", s.id, s.headers[i].first.c_str(), printable(s.headers[i].second).c_str(), printable(s.oHeaders[i].second).c_str());
-	if (s.oBody != s.body)
+	std::string seenBody = s.oBody;
+	if (s.viaUpload)
+	{
+		// Http::upload wraps the file in one multipart/form-data part: --B CRLF part headers CRLF CRLF <file bytes> CRLF --B-- CRLF
+		size_t bp = s.oContentType.find("boundary=");
+		std::string b = bp == std::string::npos ? std::string() : s.oContentType.substr(bp + 9);
+		std::string open = "--" + b + "\r\n", close = "\r\n--" + b + "--\r\n";
+		size_t hdrEnd = s.oBody.find("\r\n\r\n");
+		if (b.empty() || s.oBody.compare(0, open.size(), open) != 0 || hdrEnd == std::string::npos || s.oBody.size() < hdrEnd + 4 + close.size() ||
+		    s.oBody.compare(s.oBody.size() - close.size(), close.size(), close) != 0)
+		{
+			sim::fail("handler_mismatch", "body;upload;multipart_frame", "request %d (Http::upload of a %zu-byte file): the body the handler saw (%zu bytes, Content-Type '%s') is not one well-formed multipart part", s.id, s.body.size(),
+			          s.oBody.size(), printable(s.oContentType, 90).c_str());
+			return;
+		}
+		seenBody = s.oBody.substr(hdrEnd + 4, s.oBody.size() - hdrEnd - 4 - close.size());
+	}
+	if (seenBody != s.body)
 	{
 		snprintf(key, sizeof key, "body;%s", s.chunkedUpload ? "chunked" : "length");
 		sim::fail("handler_mismatch", key, "request %d (%s client): body of %zu bytes sent, handler saw %zu bytes, first difference at offset %zu", s.id, s.kind ? "raw" : "asl", s.body.size(), s.oBody.size(),
@@ -155,6 +172,8 @@ void checkClient(const Spec& s, const Run& R)
 		return;
 	}
 	char key[64];
+	if (s.viaUpload)
+		return; // Http::upload shows the application a success flag only; what the handler saw is judged by checkHandler
 	if (s.viaDownload)
 	{
 		// Http::download shows the application the body only (as a file)
@@ -209,6 +228,16 @@ void aslClient(Spec* s)
 		s->cGot = true;
 		s->cCode = -3; // not observable through download()
 		sim::fs::get(path, s->cBody);
+		return;
+	}
+	if (s->method == "POST" && s->viaUpload)
+	{
+		// the request body is a file on the simulated disk, streamed by the client
+		std::string path = "/sim/up/" + std::to_string(s->id) + ".bin";
+		sim::fs::put(path, s->body);
+		asl::Http::upload(url, path.c_str(), h);
+		s->cGot = true;
+		s->cCode = -3; // upload() reports success only
 		return;
 	}
 	if (s->method == "GET")
@@ -337,6 +366,7 @@ void runHttp(const Plan& p)
 	uint64_t fseed = (uint64_t)p.get("file_seed");
 	sim::fs::mkdirs("/sim/www");
 	sim::fs::mkdirs("/sim/dl");
+	sim::fs::mkdirs("/sim/up");
 	for (int i = 0; i < nfiles; i++)
 	{
 		Prng r(mix64(fseed, (uint64_t)i));
@@ -448,7 +478,7 @@ void runHttp(const Plan& p)
 		{
 			if (s.handlerCalls > 0)
 			{
-				if (s.oBody.size() > s.body.size() || s.body.compare(0, s.oBody.size(), s.oBody) != 0)
+				if (!s.viaUpload && (s.oBody.size() > s.body.size() || s.body.compare(0, s.oBody.size(), s.oBody) != 0))
 					sim::fail("relaxed_wrong_data", "handler_body", "request %d under a connection reset: the handler saw body bytes that were never sent", s.id);
 				if (s.oMethod != s.method)
 					sim::fail("relaxed_wrong_data", "method", "request %d under a connection reset: handler saw method %s", s.id, s.oMethod.c_str());
@@ -503,6 +533,8 @@ void runHttp(const Plan& p)
 			sim::probe("redirect_followed");
 		if (s.viaDownload)
 			sim::probe(s.redirect ? "download_through_redirect" : "download");
+		if (s.viaUpload)
+			sim::probe("upload_from_file");
 		checkHandler(s);
 		checkClient(s, R);
 	}
